@@ -541,6 +541,13 @@ def run_property(prop, tier, out):
     neg = negative_control(prop, wd, rows, tb, kf_names)
     if neg is False:
         raise ToolError("negative control: the protocol judge accepted a corrupted trace (binding broken)")
+    extra = {}
+    if prop in ("C01", "C02", "C03"):
+        # the protocol as a system: behaviours of Relay.tla replayed through the library, validated by Trace_Relay.tla,
+        # charged with this property's clauses only
+        import relay
+        extra = relay.run_relay(prop, tier, out, binary)
+    out.add(**extra)
     out.add(evaluations=len(judged), distinct_nontrivial=len(distinct), traces_validated_against_impl=1 if not res["dev"] else 0,
             proofs_generated=sum(1 for r in rows if r["t"] == "prove" and r.get("res") == "ok" and r.get("entry") != "values"),
             outcome_histogram={f"{a}:{b}": n for (a, b), n in sorted(kinds.items(), key=str)},
